@@ -222,10 +222,19 @@ func runRaceB(c *worker.Ctx) {
 	}
 	l := linter.New(&config.LinterConfig{})
 	var panicV any
+	began := time.Now()
 	func() {
 		defer func() { panicV = recover() }()
 		l.Lint(vcl, lcontext.New())
 	}()
+	if time.Since(began) > 3*time.Second {
+		// real processes, real clock: on a starved machine a plugin may approach
+		// falco's 5 s limit; the diagnostics comparison would then blame falco for
+		// the machine. The race detector's verdict does not depend on timing.
+		res.Probe("race_b_slow_machine_comparison_skipped")
+		res.Sig = "RB|slow"
+		return
+	}
 	if panicV != nil {
 		res.Violate("C18/no-crash", "C18/panic:linter-plugins", fmt.Sprint(panicV))
 		return
